@@ -33,9 +33,10 @@ const (
 	layCRLF       layoutKind = "one-graphql-crlf-line-endings"
 	layCR         layoutKind = "one-graphql-bare-cr-line-endings"
 	layMixedEnds  layoutKind = "one-graphql-mixed-line-endings"
+	layGoOneLit   layoutKind = "go-all-definitions-in-one-literal"
 )
 
-var allLayouts = []layoutKind{layOneFile, layPerDef, layPartition, layGoRaw, layGoRawNL, layGoInterp, layGoNested, layGoSameLine, laySameBase, layOutside, layCRLF, layCR, layMixedEnds}
+var allLayouts = []layoutKind{layOneFile, layPerDef, layPartition, layGoRaw, layGoRawNL, layGoInterp, layGoNested, layGoSameLine, laySameBase, layOutside, layCRLF, layCR, layMixedEnds, layGoOneLit}
 
 type placed struct {
 	File      string // relative file name
@@ -176,9 +177,26 @@ func layout(defs []gen.Def, kind layoutKind, r *proto.Rng) (map[string]string, [
 				fmt.Fprintf(&sb, "func f%d() []string {\n\treturn append([]string{\"x\"}, map[string]string{\"k\": `# @genqlient\n\n%s`}[\"k\"])\n}\n\n", i, b)
 				where[i] = placed{"queries.go", line + 1 + 2}
 				line += 1 + 2 + nlines(b) + 1 + 2
-			case layGoSameLine:
-				// handled below (pairs)
+			case layGoSameLine, layGoOneLit:
+				// handled below
 			}
+		}
+		if kind == layGoOneLit {
+			// ONE raw literal holds every definition: all of them share one source (and its pseudo file name)
+			sb.Reset()
+			sb.WriteString("package queries\n\n// generated layout: " + string(kind) + "\n\n")
+			sb.WriteString("var _ = `# @genqlient\n\n")
+			line = 5 + 2
+			for i, d := range defs {
+				if i > 0 {
+					sb.WriteString("\n")
+					line++
+				}
+				where[i] = placed{"queries.go", line}
+				sb.WriteString(block(d))
+				line += nlines(block(d))
+			}
+			sb.WriteString("`\n")
 		}
 		if kind == layGoSameLine {
 			sb.Reset()
